@@ -239,9 +239,39 @@ class PairList(list):
     pass
 
 
+MAX_NODES = 4000
+MAX_STRLEN = 4000
+
+
+def _count(v, budget):
+    if is_map(v):
+        budget -= len(v)
+        if budget < 0:
+            return budget
+        for x in v.values():
+            if is_map(x) or is_arr(x):
+                budget = _count(x, budget)
+                if budget < 0:
+                    return budget
+    elif is_arr(v):
+        budget -= len(v)
+        if budget < 0:
+            return budget
+        for x in v:
+            if is_map(x) or is_arr(x):
+                budget = _count(x, budget)
+                if budget < 0:
+                    return budget
+    return budget
+
+
 def dcopy(v):
     if is_map(v) or is_arr(v):
+        if _count(v, MAX_NODES) < 0:
+            raise Decline("collection larger than the model's size bound")
         return copy.deepcopy(v)
+    if is_str(v) and len(v) > MAX_STRLEN:
+        raise Decline("string longer than the model's size bound")
     return v
 
 
@@ -376,7 +406,10 @@ def binop(op, a, b):
                 return o
             raise Decline("absent . non-string: result type not fixed by the docs")
         if (is_str(a) or is_num(a)) and (is_str(b) or is_num(b)):
-            return fmt_scalar(a) + fmt_scalar(b)
+            r = fmt_scalar(a) + fmt_scalar(b)
+            if len(r) > MAX_STRLEN:
+                raise Decline("string longer than the model's size bound")
+            return r
         raise Decline("dot on boolean/collection")
     # ---- bitwise
     if op in ("&", "|", "^", "<<", ">>", ">>>"):
